@@ -1,3 +1,5 @@
+import JadeModel.Proofs.SystemStatus
+import JadeModel.Proofs.SystemOutcome
 import JadeModel.Proofs.SystemStatusFlow0
 import JadeModel.Proofs.SystemStatusFlow1
 import JadeModel.Proofs.SystemStatusFlow2
